@@ -122,6 +122,16 @@ def oracle(ctx, deep):
             ctx.violations.append(dict(base, finding_key="C16-preset", what="preset %s reports entropy %r, documented log2(%d) = %r" % (name, ent, len(DOC_PRESETS[name]), want)))
         if meta["kind"] == "cell":
             tally.setdefault(name, {}).setdefault(v, []).append(meta["vec"])
+        rr = wlgen.PRESET_RECIPES.get(name)
+        if rr is not None and meta.get("vec") is not None and len(meta["vec"]) == rr.length:
+            # the tape scripts this index vector (after raw words that an unbiased draw over the preset's alphabet must reject):
+            # the documented value for it, and nothing else — a preset that keeps a rejected word is not uniform
+            A = rr.alphabet()
+            want_v = "".join(A[i] for i in meta["vec"])
+            if v != want_v:
+                ctx.violations.append(dict(base, finding_key="C16-preset-uniform", what="preset %s returned %r on a tape that scripts %r%s: its values are not selected by equally many raw words" % (
+                    name, v, want_v, " after %d raw word(s) an unbiased draw rejects" % meta["nrej"] if meta.get("nrej") else "")))
+                continue
     for name, vals in DOC_PRESETS.items():
         t = tally.get(name)
         if t is None:
